@@ -119,6 +119,21 @@ def check_vector(v):
             rep("chunked BAM read differs from the whole-file records", "read_chunks", len(exp), str(o)[:300] if o[0] != "ok" else len(o[1]), K=K,
                 only_unmapped_reference_name=False)
             break
+    # the file copied chunk by chunk (read_chunks handed to write): the copy holds the same record bytes, each once, in order
+    for K in sorted({largest, largest + 2, (largest + total) // 2}):
+        out_c = os.path.join(d, "o_copy_%d.bam" % K)
+
+        def copy():
+            with bnp.open(out_c, "w") as w:
+                w.write(bnp.open(path).read_chunks(min_chunk_size=K))
+            raw = gzip.decompress(open(out_c, "rb").read())
+            return raw[len(_header()):] == body, _project(bnp.open(out_c).read())
+        o = outcome(copy)
+        n += 1
+        if o[0] != "ok" or not o[1][0] or not _same(exp, o[1][1]):
+            rep("BAM copied chunk by chunk does not hold the original record bytes / records", "copy-chunks", len(exp),
+                str(o)[:300] if o[0] != "ok" else {"same_bytes": o[1][0], "records": len(o[1][1])}, K=K)
+            break
     # reference intervals
     want_iv = [[iv["start"], iv["stop"], iv["strand"]] for iv in v["intervals"]]
     def ivs(kind):
